@@ -108,6 +108,33 @@ func guardInventory(c *Ctx, rule string, res *Result, rows []Row, wrap func(Val)
 		}
 	}
 	c.count(rule+"/accepting-paths", nAcc)
+	// per-element rows: must hold at EVERY completed generic iteration (back edge), whatever the path does
+	// afterwards — loop-carried state is havocked, so a later accepting return says nothing about earlier iterations.
+	for _, t := range res.Terms {
+		for _, e := range t.St.events {
+			if e.Kind != EvLoopBack {
+				continue
+			}
+			atoms := map[string]bool{}
+			for _, f := range t.St.facts {
+				if f.Seq <= e.Seq {
+					atoms[atom(f)] = true
+				}
+			}
+			for _, r := range rows {
+				if !r.PerElem {
+					continue
+				}
+				if rowHolds(r, atoms) {
+					c.ok(rule+"/row", fname, r.ID, c.P.InstrPos(e.Instr), "every completed iteration carries "+strings.Join(r.Alts, " ∨ "))
+				} else {
+					o := c.bad(rule+"/row", fname, r.ID, c.P.InstrPos(e.Instr),
+						fmt.Sprintf("an iteration of the element loop in %s completes (reaches the back edge) without the required check [%s]: a failing element in a non-final position does not stop the loop", fname, strings.Join(r.Alts, " ∨ ")))
+					o.Path = t.pathDesc(c.P)
+				}
+			}
+		}
+	}
 	// typed errors
 	for _, r := range rows {
 		if r.NoErr || r.Err == nil {
